@@ -9,8 +9,8 @@ import (
 
 func init() {
 	register(&propDef{
-		id:  "C17",
-		run: runC17,
+		id:          "C17",
+		run:         runC17,
 		explanation: "Static analysis of the structural conditions the cache's guarantees rest on: (1) lock pairing and guarded-by for the bucket table (mBucket.nodes/state under the bucket lock), the replacement policy (lru.used/capacity/recent, Node.CacheData, lruNode.ban/h under lru.mu) and Cache.closed under Cache.mu; (2) the value constructor is invoked only under the node's lock and only when the node has no value (once per residency); (3) the policy never calls Handle.Release — hence finalisers and user deletion callbacks — while holding its own lock; (4) finalisation is idempotent: value.Release is reached only with value != nil and is followed by clearing it, happens in the bucket only at ref == 0 with the node then removed, and delFuncs are cleared after running; (5) Cache.Delete runs or queues the deletion callback exactly once on every path; (6) the capacity trim: every increase of the charge or change of capacity is followed, before the policy lock is released, by the eviction loop whose exit condition is used <= capacity; admission only if the node fits; banned nodes are never re-admitted; every list removal subtracts the charge. Interleaving-dependent statements (per-key uniqueness across resizes, finalisation ordering against handle release at run time) are NOT decided.",
 		notCovered:  "uniqueness of live values per key across concurrent resizes; run-time ordering of finalisation against handle release; callback timing relative to outstanding handles",
 		assumptions: []string{"sync.Mutex / sync/atomic semantics"},
@@ -40,9 +40,9 @@ var gbyCache = gbyTable{
 		"(*leveldb/cache.mBucket).frozen": {lkBucket},
 	},
 	exceptions: map[string]string{
-		"(*leveldb/cache.lru).reset|*":  "called only from NewLRU before the value is shared (checked: single caller)",
-		"leveldb/cache.NewLRU|*":        "construction",
-		"leveldb/cache.NewCache|*":      "construction",
+		"(*leveldb/cache.lru).reset|*": "called only from NewLRU before the value is shared (checked: single caller)",
+		"leveldb/cache.NewLRU|*":       "construction",
+		"leveldb/cache.NewCache|*":     "construction",
 	},
 }
 
@@ -107,6 +107,17 @@ func runC17(p *Prog, r *Report) {
 				}
 				return (mParam("setFunc")(b.X) && isNilConst(b.Y)) || (mParam("setFunc")(b.Y) && isNilConst(b.X))
 			}, "setFunc == nil")
+			// a handle is handed out (and the node promoted into the policy) only for a node that has a
+			// value: a lookup-only Get that finds a node whose constructor is still running / failed
+			// must miss, not return a handle with a nil value and a zero charge
+			handle := func(in ssa.Instruction) bool {
+				if al, ok := in.(*ssa.Alloc); ok && al.Heap && namedOf(al.Type()) == "leveldb/cache.Handle" {
+					return true
+				}
+				c, ok := in.(*ssa.Call)
+				return ok && c.Call.IsInvoke() && c.Call.Method.Name() == "Promote"
+			}
+			checkGuard(p, r, GuardSpec{Rule: "no-handle-without-value", Fn: fn, Target: handle, TargetDesc: "promoting the node / returning a handle", Atoms: []Atom{noValue}, G: func(a []bool) bool { return !a[0] }, GDesc: "n.value != nil (as tested under n.mu)", MinTargets: 2})
 			// the value read is published (stored) before the lock is released
 			storeVal := evStoreField(tCNode, "value")
 			unlock := func(in ssa.Instruction) bool { res, d, ok := mutexOp(in); return ok && d < 0 && res == lkCNode }
